@@ -93,9 +93,20 @@ pub fn ref_len(f: &Frame) -> usize {
 fn fix_crc(b: &mut Vec<u8>) { let n = b.len(); if n >= 4 { let c = ref_crc(&b[..n - 4]); b[n - 4..].copy_from_slice(&c.to_be_bytes()); } }
 
 /// Compares the implementation's parser with the reference on one input.
+/// Set by C03, which runs the same parser sweeps with the panic oracle only.
+pub static FOR_C03: std::sync::atomic::AtomicBool = std::sync::atomic::AtomicBool::new(false);
+
 fn check_parse(bytes: &[u8], acc: &mut Acc, what: &str) {
     acc.evals += 1;
     let r = guarded(|| Frame::read(bytes));
+    if FOR_C03.load(std::sync::atomic::Ordering::Relaxed) {
+        if let Err(p) = r {
+            acc.panics += 1;
+            let loc = p.rsplit(" @ ").next().unwrap_or("").to_string();
+            acc.violation(format!("case:parse:{}", hex(bytes)), viol("C03.panic", format!("C03.panic:frame-read:{}", loc), format!("Frame::read (called by Client::step / Server::step on every datagram) panicked on a {}-byte input ({}): {}", bytes.len(), what, p)));
+        }
+        return;
+    }
     let expect = ref_read(bytes);
     match r {
         Err(p) => { acc.panics += 1; acc.violation(format!("case:parse:{}", hex(bytes)), viol("C16.parse-panic", "C16.parse-panic".into(), format!("Frame::read panicked on a {}-byte input ({}): {}", bytes.len(), what, p))); }
@@ -136,11 +147,70 @@ pub fn sample_frames() -> Vec<Frame> {
         Frame::DataFrame(DataFrame { sequence_id: 0x7f000001, nonce: true, datagrams: vec![dg(5, 3, 1, 1, 0, 0, 10), dg(0xFFFFF, 63, 300, 300, 0, 0, 100), dg(7, 17, 2, 2, 1, 2, 300)] }),
         Frame::SyncFrame(SyncFrame { next_frame_id: Some(0x01020304), next_packet_id: Some(0x000a0b0c) }),
         Frame::AckFrame(AckFrame { frame_window_base_id: 0x01020304, packet_window_base_id: 0x00050607, frame_acks: vec![AckGroup { base_id: 9, bitfield: 0x80000001, nonce: true }, AckGroup { base_id: 77, bitfield: 1, nonce: false }] }),
+        // (indices 0..8 are referred to by number below: new samples go after them)
+        // data frames ending in a datagram of each header format (micro / small / large), short enough that truncation at every length
+        // cuts through every header
+        Frame::DataFrame(DataFrame { sequence_id: 0x10, nonce: false, datagrams: vec![dg(9, 40, 200, 200, 0, 0, 70), dg(5, 3, 1, 1, 0, 0, 10)] }),
+        Frame::DataFrame(DataFrame { sequence_id: 0x11, nonce: true, datagrams: vec![dg(5, 3, 1, 1, 0, 0, 10), dg(9, 40, 200, 200, 0, 0, 70)] }),
+        Frame::DataFrame(DataFrame { sequence_id: 0x12, nonce: true, datagrams: vec![dg(9, 40, 200, 200, 0, 0, 70), dg(7, 17, 2, 2, 1, 2, 30)] }),
     ]
 }
 
-pub fn build(quick: bool) -> PropRun {
+/// Section (b): Frame::read on enumerated inputs (used by C16 against the reference parser and by C03 with the panic oracle).
+pub fn parse_units(quick: bool) -> Vec<Unit> {
     let mut units: Vec<Unit> = Vec::new();
+    // ---- (b) parsing against the reference parser
+    // every payload of length <= L after every type byte, CRC valid
+    let maxlen = if quick { 1 } else { 2 };
+    for t0 in 0..16u32 {
+        units.push(Box::new(move |acc: &mut Acc| {
+            for t in (t0 * 16)..(t0 * 16 + 16) {
+                for len in 0..=maxlen {
+                    let total = 256u32.pow(len as u32);
+                    for v in 0..total {
+                        let mut b = vec![t as u8]; for k in 0..len { b.push((v >> (8 * k)) as u8); } b.extend_from_slice(&[0; 4]); fix_crc(&mut b);
+                        check_parse(&b, acc, "type byte + short payload, valid CRC");
+                    }
+                }
+            }
+            acc.sample(format!("parse: every payload of <= {} bytes after type bytes {}..{} with a valid CRC", maxlen, t0 * 16, t0 * 16 + 15));
+        }));
+    }
+    // every single-byte substitution, truncation and extension of one sample frame per type (CRC re-fixed), plus raw (CRC not fixed)
+    for (fi, f) in sample_frames().into_iter().enumerate() {
+        units.push(Box::new(move |acc: &mut Acc| {
+            let b0 = f.write().to_vec();
+            let body = b0.len() - 4;
+            for pos in 0..body { for v in 0..=255u8 { if v == b0[pos] { continue; } let mut b = b0.clone(); b[pos] = v; fix_crc(&mut b); check_parse(&b, acc, "one byte substituted, CRC re-fixed"); } }
+            for cut in 1..=body.min(700) { let mut b = b0[..body - cut].to_vec(); b.extend_from_slice(&[0; 4]); fix_crc(&mut b); check_parse(&b, acc, "truncated, CRC re-fixed"); }
+            for cut in 1..=b0.len().min(30) { check_parse(&b0[..b0.len() - cut], acc, "truncated, CRC not fixed"); }
+            for ext in 1..=16usize { for fill in [0u8, 0xFF, 0x0A] { let mut b = b0[..body].to_vec(); b.extend(std::iter::repeat(fill).take(ext)); b.extend_from_slice(&[0; 4]); fix_crc(&mut b); check_parse(&b, acc, "extended, CRC re-fixed"); } }
+            for ext in 1..=8usize { let mut b = b0.clone(); b.extend(std::iter::repeat(0u8).take(ext)); check_parse(&b, acc, "trailing bytes after the CRC"); }
+            acc.sample(format!("parse: all single-byte substitutions / truncations / extensions of sample frame #{} ({} bytes)", fi, b0.len()));
+        }));
+    }
+    units.push(Box::new(move |acc: &mut Acc| {
+        for len in 0..=1472usize { for fill in [0u8, 0xFF] { let b = vec![fill; len]; check_parse(&b, acc, "constant bytes"); let mut c = b.clone(); if len >= 5 { fix_crc(&mut c); check_parse(&c, acc, "constant bytes, valid CRC"); } } }
+        // data frames whose declared datagram lengths run past the end / count mismatches
+        for count in [0u8, 1, 2, 127] { for declared in [0usize, 1, 63, 64, 300] { for have in [0usize, 1, 62, 63, 64, 299, 300, 301] {
+            for class in 0..3 {
+                let mut b = vec![10u8, 0, 0, 0, 7, count];
+                match class { 0 => b.extend_from_slice(&[(declared & 0x3F) as u8, 0, 0, 1, 0, 0]), 1 => b.extend_from_slice(&[0x80, declared as u8, 0, 0, 1, 0, 0, 0, 0]), _ => b.extend_from_slice(&[0xC0, (declared >> 8) as u8, declared as u8, 0, 0, 1, 0, 0, 0, 0, 0, 0, 0, 0]) }
+                b.extend(std::iter::repeat(0x55u8).take(have)); b.extend_from_slice(&[0; 4]); fix_crc(&mut b);
+                check_parse(&b, acc, "data frame with inconsistent lengths");
+            }
+        } } }
+        for count in [0u16, 1, 2, 161, 162, 65535] { for have in [0usize, 1, 2, 161, 162] { for extra in [0usize, 1, 8, 9] {
+            let mut b = vec![12u8, 0, 0, 0, 1, 0, 0, 0, 2, (count >> 8) as u8, count as u8]; b.extend(std::iter::repeat(0x01u8).take(9 * have + extra)); b.extend_from_slice(&[0; 4]); fix_crc(&mut b);
+            check_parse(&b, acc, "ack frame with inconsistent group count");
+        } } }
+        acc.sample("parse: 0..1472 bytes of 0x00 / 0xFF with and without valid CRC; data and ack frames with inconsistent counts and lengths".into());
+    }));
+    units
+}
+
+pub fn build(quick: bool) -> PropRun {
+    let mut units: Vec<Unit> = parse_units(quick);
     let u32s = [0u32, 1, 0xFFFF_FFFF];
     // ---- (a) round trip over boundary values
     units.push(Box::new(move |acc: &mut Acc| {
@@ -186,53 +256,7 @@ pub fn build(quick: bool) -> PropRun {
         for cnt in [1usize, 2, 127] { let v: Vec<Datagram> = (0..cnt).map(|k| mk(0, k * 0)).map(|mut d| { d.data = vec![].into(); d }).collect(); check_roundtrip(&Frame::DataFrame(DataFrame { sequence_id: 1, nonce: false, datagrams: v }), acc); }
         acc.sample("round trip: data frames with 0..127 datagrams cycling micro/small/large encodings".into());
     }));
-    // ---- (b) parsing against the reference parser
-    // every payload of length <= L after every type byte, CRC valid
     let maxlen = if quick { 1 } else { 2 };
-    for t0 in 0..16u32 {
-        units.push(Box::new(move |acc: &mut Acc| {
-            for t in (t0 * 16)..(t0 * 16 + 16) {
-                for len in 0..=maxlen {
-                    let total = 256u32.pow(len as u32);
-                    for v in 0..total {
-                        let mut b = vec![t as u8]; for k in 0..len { b.push((v >> (8 * k)) as u8); } b.extend_from_slice(&[0; 4]); fix_crc(&mut b);
-                        check_parse(&b, acc, "type byte + short payload, valid CRC");
-                    }
-                }
-            }
-            acc.sample(format!("parse: every payload of <= {} bytes after type bytes {}..{} with a valid CRC", maxlen, t0 * 16, t0 * 16 + 15));
-        }));
-    }
-    // every single-byte substitution, truncation and extension of one sample frame per type (CRC re-fixed), plus raw (CRC not fixed)
-    for (fi, f) in sample_frames().into_iter().enumerate() {
-        units.push(Box::new(move |acc: &mut Acc| {
-            let b0 = f.write().to_vec();
-            let body = b0.len() - 4;
-            for pos in 0..body { for v in 0..=255u8 { if v == b0[pos] { continue; } let mut b = b0.clone(); b[pos] = v; fix_crc(&mut b); check_parse(&b, acc, "one byte substituted, CRC re-fixed"); } }
-            for cut in 1..=body.min(40) { let mut b = b0[..body - cut].to_vec(); b.extend_from_slice(&[0; 4]); fix_crc(&mut b); check_parse(&b, acc, "truncated, CRC re-fixed"); }
-            for cut in 1..=b0.len().min(30) { check_parse(&b0[..b0.len() - cut], acc, "truncated, CRC not fixed"); }
-            for ext in 1..=16usize { for fill in [0u8, 0xFF, 0x0A] { let mut b = b0[..body].to_vec(); b.extend(std::iter::repeat(fill).take(ext)); b.extend_from_slice(&[0; 4]); fix_crc(&mut b); check_parse(&b, acc, "extended, CRC re-fixed"); } }
-            for ext in 1..=8usize { let mut b = b0.clone(); b.extend(std::iter::repeat(0u8).take(ext)); check_parse(&b, acc, "trailing bytes after the CRC"); }
-            acc.sample(format!("parse: all single-byte substitutions / truncations / extensions of sample frame #{} ({} bytes)", fi, b0.len()));
-        }));
-    }
-    units.push(Box::new(move |acc: &mut Acc| {
-        for len in 0..=1472usize { for fill in [0u8, 0xFF] { let b = vec![fill; len]; check_parse(&b, acc, "constant bytes"); let mut c = b.clone(); if len >= 5 { fix_crc(&mut c); check_parse(&c, acc, "constant bytes, valid CRC"); } } }
-        // data frames whose declared datagram lengths run past the end / count mismatches
-        for count in [0u8, 1, 2, 127] { for declared in [0usize, 1, 63, 64, 300] { for have in [0usize, 1, 62, 63, 64, 299, 300, 301] {
-            for class in 0..3 {
-                let mut b = vec![10u8, 0, 0, 0, 7, count];
-                match class { 0 => b.extend_from_slice(&[(declared & 0x3F) as u8, 0, 0, 1, 0, 0]), 1 => b.extend_from_slice(&[0x80, declared as u8, 0, 0, 1, 0, 0, 0, 0]), _ => b.extend_from_slice(&[0xC0, (declared >> 8) as u8, declared as u8, 0, 0, 1, 0, 0, 0, 0, 0, 0, 0, 0]) }
-                b.extend(std::iter::repeat(0x55u8).take(have)); b.extend_from_slice(&[0; 4]); fix_crc(&mut b);
-                check_parse(&b, acc, "data frame with inconsistent lengths");
-            }
-        } } }
-        for count in [0u16, 1, 2, 161, 162, 65535] { for have in [0usize, 1, 2, 161, 162] { for extra in [0usize, 1, 8, 9] {
-            let mut b = vec![12u8, 0, 0, 0, 1, 0, 0, 0, 2, (count >> 8) as u8, count as u8]; b.extend(std::iter::repeat(0x01u8).take(9 * have + extra)); b.extend_from_slice(&[0; 4]); fix_crc(&mut b);
-            check_parse(&b, acc, "ack frame with inconsistent group count");
-        } } }
-        acc.sample("parse: 0..1472 bytes of 0x00 / 0xFF with and without valid CRC; data and ack frames with inconsistent counts and lengths".into());
-    }));
     // ---- (c) CRC: direct enumeration of 1..k flipped bits over control frames through the real Frame::read
     let direct: Vec<(Frame, usize)> = if quick {
         vec![(sample_frames()[4].clone(), 4), (sample_frames()[2].clone(), 4), (sample_frames()[3].clone(), 4), (sample_frames()[7].clone(), 4), (sample_frames()[1].clone(), 3)]
@@ -270,7 +294,7 @@ pub fn build(quick: bool) -> PropRun {
     let thorough = !quick;
     units.push(Box::new(move |acc: &mut Acc| { crc_full_length(acc, thorough); }));
     PropRun { level: "model_checking", scenarios: vec![], units, replay_case: Some(replay_case), summary: Summary {
-        rule: "exhaustive input enumeration: (a) round trip of frames over boundary values of every field and all three datagram encodings, 0..127 datagrams, 0..400 ack groups; (b) Frame::read vs an independent reference parser on every short payload after every type byte, every single-byte substitution / truncation / extension of one sample frame per type, constant fills of every length 0..1472; (c) every pattern of <= 4 flipped bits: directly on control frames, and for all 11776 bit positions of a full-size frame through single-bit syndromes of the real crc::compute (affinity of compute checked exhaustively on its table); distinct = distinct outcome class".into(),
+        rule: "exhaustive input enumeration: (a) round trip of frames over boundary values of every field and all three datagram encodings, 0..127 datagrams, 0..400 ack groups; (b) Frame::read vs an independent reference parser on every short payload after every type byte, every single-byte substitution / extension and truncation at every length (CRC re-fixed) of sample frames of every type and datagram header format, constant fills of every length 0..1472; (c) every pattern of <= 4 flipped bits: directly on control frames, and for all 11776 bit positions of a full-size frame through single-bit syndromes of the real crc::compute (affinity of compute checked exhaustively on its table); distinct = distinct outcome class".into(),
         bounds: json!({"short_payload_len": maxlen, "crc_direct": if quick { "<=4 bits on 5/9/10/14-byte frames, <=3 bits on the 25-byte SYN-ACK" } else { "<=4 bits on all control frames and a 44-byte data frame, <=3 on a 33-byte ack frame" }, "crc_full_length_bits": 11776}),
         assumptions: vec!["(c) full length: an undetected pattern of weight <= 4 exists iff some <= 4 single-bit syndromes XOR to zero; this needs crc::compute to be affine over GF(2), which is verified exhaustively on its 256-entry table (the byte step is a shift XOR a table lookup) and cross-checked by recomputing syndromes on three base messages and by feeding every weight-1 (thorough: and weight-2) pattern of a maximum-size frame to Frame::read".into(),
                           "representable frame = field values within their wire ranges (20-bit packet ids, channel < 64, <= 127 datagrams, fragment id 0 when last id is 0)".into()],
